@@ -439,6 +439,41 @@ def clause_e(facts, rep, pol):
     rep.require(k >= 4, 'C16.e: refcount sites found: %d (%s)' % (k, pol))
 
 
+def round_up_rule(facts, rep, files=('sonic/allocator.h',), min_sites=3):
+    """a request is rounded up to the alignment as (x + a) & m: for that to be the least multiple of a+1 not below x
+    for EVERY x of x's type, a+1 is a power of two and m is ~a at the FULL width of x (a mask built at 32 bits and
+    zero-extended clears bits 32..63 of a 64-bit size: a 4 GiB request then reserves a few bytes)."""
+    from ..minterp import width
+    n = 0
+    seen = set()
+    for f in facts.functions:
+        if not any(f.file.endswith(x) for x in files):
+            continue
+        for bid, i, s_, e in f.walk():
+            if e.get('k') != 'bin' or e['op'] != '&':
+                continue
+            for x, m in ((e['l'], e['r']), (e['r'], e['l'])):
+                mv = cval(m)
+                xs = strip(x)
+                if mv is None or xs is None or xs.get('k') != 'bin' or xs['op'] != '+':
+                    continue
+                av = cval(xs['r']) if cval(xs['r']) is not None else cval(xs['l'])
+                if av is None or av <= 0:
+                    continue
+                key = (f.qn, show(e), locline(e['loc']))
+                if key in seen:
+                    continue
+                seen.add(key)
+                rep.fn(f)
+                w, _sg = width(e.get('t'))
+                full = (1 << w) - 1
+                n += 1
+                rep.check((av & (av + 1)) == 0 and (mv & full) == (full & ~av), 'E5.round-up', f.qn, show(e), locline(e['loc']),
+                          'addend %d, mask 0x%x at %d bits; the mask must be ~%d over all %d bits (0x%x)' % (av, mv & full, w, av, w, full & ~av), facts.config)
+    rep.require(n >= min_sites, 'round-up: %d (x + a) & m expressions found in %s (>= %d expected)' % (n, files, min_sites))
+    return n
+
+
 def run(rep, tier):
     configs = [('K1', 'SimpleChunkPolicy')] if tier == 'quick' else [('K1', 'SimpleChunkPolicy'), ('K6', 'AdaptiveChunkPolicy'), ('K5', 'SimpleChunkPolicy')]
     for cfg, pol in configs:
@@ -450,6 +485,7 @@ def run(rep, tier):
         clause_ab(facts, rep, pol_in_names)
         clause_cd(facts, rep, pol_in_names)
         clause_e(facts, rep, pol_in_names)
+        round_up_rule(facts, rep)
     rep.trust('clang 14 front end')
     rep.assumptions += [
         'decides alignment data flow, bump-inside-chunk dominance, ChunkSize >= n, Realloc guards, zero-size early return and refcount pairing',
